@@ -204,4 +204,16 @@ theorem wellFormed_write (d : Desc) (enum : List Code) (m : ModelT) (h : writeWi
   have := acc.below sg hsg' tt htt
   omega
 
+/-- a graph without a Cpu subgraph: no tensor buffer is written, buffer 0 of the file is the `vela_version` buffer -/
+def noCpuDesc : Desc := { tensors := [], subgraphs := [], metadata := [], version := [49] }
+def noCpuFile : ModelT :=
+  { fileId := WriterTbl.fileIdentifier, version := WriterTbl.tfliteVersion, opcodes := [], subgraphs := [],
+    description := some (descriptionOf [49]),
+    buffers := [{ data := some (.raw [49]) }, { data := some (.raw [0,0,0,0, 0,0,0,0, 0,0,0,0]) }],
+    metadata := [{ name := some velaVersionName, buffer := 0 }, { name := some omaName, buffer := 1 }] }
+theorem wellFormed_no_cpu_subgraph_witness : ∃ d m, write d = .ok m ∧ wellFormed m ≠ [] := by
+  refine ⟨noCpuDesc, noCpuFile, ?_, ?_⟩
+  · decide +kernel
+  · decide +kernel
+
 end VelaVerif.Tflite.Spec
